@@ -191,6 +191,7 @@ fn main() {
         ("Topic", gen_topic),
         ("Server", gen_server),
         ("Tls", gen_tls),
+        ("KeepAlive", gen_keepalive),
     ];
     let mut failed = false;
     for (name, f) in steps {
@@ -695,5 +696,83 @@ fn gen_tls(repo: &Path, g: &mut Gen) -> R<()> {
     let _ = writeln!(s, "/-- the name the client expects in the server's certificate (`endpoint.connect(addr, …)`) -/\ndef serverName : String := {name:?}");
     let _ = writeln!(s, "def sameAlpn : Bool := {}", alpn_s == alpn_c && !alpn_s.is_empty());
     g.emit("Tls", &[q_rel, c_rel], &s);
+    Ok(())
+}
+
+// --------------------------------------------------------------------------------------- keep-alive
+
+fn method_body<'a>(src: &'a Src, method: &str, nth: usize) -> Option<&'a syn::Block> {
+    let mut k = 0;
+    for it in &src.ast.items {
+        if let Item::Impl(im) = it {
+            for ii in &im.items {
+                if let ImplItem::Fn(f) = ii {
+                    if f.sig.ident == method { if k == nth { return Some(&f.block); } k += 1; }
+                }
+            }
+        }
+    }
+    None
+}
+
+/// is a `let … = ….into_iter()` of the backoff strategy located inside the (first) `loop` of the block?
+fn budget_inside_loop(b: &syn::Block) -> Option<bool> {
+    struct V { depth: usize, found: Option<bool> }
+    impl<'ast> syn::visit::Visit<'ast> for V {
+        fn visit_expr_loop(&mut self, l: &'ast syn::ExprLoop) { self.depth += 1; syn::visit::visit_expr_loop(self, l); self.depth -= 1; }
+        fn visit_local(&mut self, l: &'ast syn::Local) {
+            if let Some(init) = &l.init {
+                let e = &init.expr;
+                let t = quote::quote!(#e).to_string();
+                if t.contains("backoff_strategy") && t.contains("into_iter ()") && self.found.is_none() { self.found = Some(self.depth > 0); }
+            }
+            syn::visit::visit_local(self, l);
+        }
+    }
+    let mut v = V { depth: 0, found: None };
+    syn::visit::Visit::visit_block(&mut v, b);
+    v.found
+}
+
+fn gen_keepalive(repo: &Path, g: &mut Gen) -> R<()> {
+    let rr_rel = "client/src/keep_alive/reqrep.rs";
+    let ps_rel = "client/src/keep_alive/pubsub.rs";
+    let h_rel = "client/src/keep_alive/helpers.rs";
+    let rq_rel = "client/src/streams/request_reply/requestor.rs";
+    let rr = Src::load(repo, rr_rel)?;
+    let ps = Src::load(repo, ps_rel)?;
+    let h = Src::load(repo, h_rel)?;
+    let rq = Src::load(repo, rq_rel)?;
+    let listen = method_body(&rr, "listen", 0).ok_or_else(|| Shape(format!("{rr_rel}: fn listen not found")))?;
+    let request = method_body(&rr, "request", 0).ok_or_else(|| Shape(format!("{rr_rel}: fn request not found")))?;
+    let listen_per = budget_inside_loop(listen).ok_or_else(|| Shape(format!("{rr_rel}: listen(): no backoff iterator found")))?;
+    let request_per = budget_inside_loop(request).ok_or_else(|| Shape(format!("{rr_rel}: request(): no backoff iterator found")))?;
+    // pub/sub wrapper: the iterator is created when the status goes from Connected to Disconnected
+    let on_dis = method_body(&ps, "on_disconnect", 0).ok_or_else(|| Shape(format!("{ps_rel}: fn on_disconnect not found")))?;
+    let od = quote::quote!(#on_dis).to_string();
+    let pubsub_per = od.contains("ConnectionStatus :: disconnected (self . backoff_strategy . clone ())");
+    // requestor: does on_reconnect start a reply reader for the new stream?
+    let onr = method_body(&rq, "on_reconnect", 0).ok_or_else(|| Shape(format!("{rq_rel}: fn on_reconnect not found")))?;
+    let onr_t = quote::quote!(#onr).to_string();
+    let restarts = onr_t.contains("poll_replies (");
+    // classification of errors
+    let rec = fn_body_tokens(&h, "is_recoverable_error")?;
+    let dis = fn_body_tokens(&h, "is_disconnect_error")?;
+    let bind = fn_body_tokens(&h, "is_bind_error")?;
+    let io_reset = dis.contains("ConnectionReset");
+    let io_notconn = dis.contains("NotConnected");
+    let quic_conn = rec.contains("SeliumError :: Quic (QuicError :: ConnectionError (_)) => true");
+    let io_arm = rec.contains("SeliumError :: IoError (err) => is_disconnect_error (err)");
+    let open_arm = rec.contains("SeliumError :: OpenStream (code , _) => is_bind_error (* code)");
+    let default_false = rec.contains("_ => false");
+    let bind_code = bind.contains("code == REPLIER_ALREADY_BOUND");
+    if !default_false { return shape(h_rel, "is_recoverable_error: the catch-all arm is not `_ => false`"); }
+    let mut s = String::new();
+    let _ = writeln!(s, "/-- {rr_rel}: is the backoff iterator of `listen()` / `request()` created inside the retry loop (per outage)? -/\ndef replierBudgetPerOutage : Bool := {listen_per}\ndef requestorBudgetPerOutage : Bool := {request_per}");
+    let _ = writeln!(s, "/-- {ps_rel}: `on_disconnect` builds a fresh `ReconnectState` from the strategy when the connection is lost -/\ndef pubsubBudgetPerOutage : Bool := {pubsub_per}");
+    let _ = writeln!(s, "/-- {rq_rel}: `on_reconnect` starts a reply reader for the new stream -/\ndef requestorRestartsReader : Bool := {restarts}");
+    let _ = writeln!(s, "/-- {h_rel}: `is_recoverable_error` -/\ndef ioConnectionResetRecoverable : Bool := {}\ndef ioNotConnectedRecoverable : Bool := {}\ndef quicConnectionErrorRecoverable : Bool := {quic_conn}\ndef replierAlreadyBoundRecoverable : Bool := {}",
+        io_arm && io_reset, io_arm && io_notconn, open_arm && bind_code);
+    g.emit("KeepAlive", &[rr_rel, ps_rel, h_rel, rq_rel], &s);
     Ok(())
 }
